@@ -108,7 +108,7 @@ def scale_sweep(fn, x, y, tol, tiny_imag=True):
     for e in (-70, -40, -30, 30):
         s = 2.0 ** e
         (l,) = fn(s * x)
-        if float((l - s * ax).abs().max()) > (100 * tol) * s * ref:
+        if float((l - s * ax).abs().nan_to_num(nan=float('inf')).max()) > (100 * tol) * s * ref:
             return f'A(s x) != s A(x) for s = 2^{e}'
         xr, yr = x.real.to(x.dtype), y.real.to(x.dtype)
         (l,) = fn(xr + 1j * s * yr)
@@ -117,7 +117,7 @@ def scale_sweep(fn, x, y, tol, tiny_imag=True):
         # mix real and imaginary parts (DFT, PCA, ...) get the rounding error of the large part as allowance
         eps = 1.2e-7 if x.dtype == torch.complex64 else 2.3e-16
         mixing = float(axr.imag.abs().max()) + s * float(ayr.real.abs().max()) * (float(ayr.imag.abs().max()) > 0)
-        if tiny_imag and -60 < e < 0 and float((l - axr - 1j * s * ayr).imag.abs().max()) > (100 * tol) * s * ref + 1e3 * eps * mixing:
+        if tiny_imag and -60 < e < 0 and float((l - axr - 1j * s * ayr).imag.abs().nan_to_num(nan=float('inf')).max()) > (100 * tol) * s * ref + 1e3 * eps * mixing:
             return f'A(x + i s y) != A(x) + i s A(y) for real x, y and s = 2^{e} (the small imaginary part is lost)'
     return None
 
